@@ -61,6 +61,9 @@ def py_atoms(tier):
             if (v.count(".") <= 1 or v in wild3) and v.replace(".", "").isdigit():
                 out.append({"var": var, "op": "==", "val": v + ".*", "rev": False, "style": 0})
                 out.append({"var": var, "op": "!=", "val": v + ".*", "rev": False, "style": 0})
+    for v in M.PY_NONVERSION_LITS[: 1 if tier == "quick" else 2]:
+        for op in ("==", "!="):
+            out.append({"var": "python_full_version", "op": op, "val": v, "rev": False, "style": 0})
     for lst in lists:
         out.append({"var": "python_version", "op": "in", "val": lst, "rev": False, "style": 0})
         out.append({"var": "python_version", "op": "not in", "val": lst, "rev": False, "style": 0})
